@@ -174,10 +174,13 @@ def py_features(v, acc=None):
     return acc
 
 
-def gen_cases(ctx, scale=1.0):
+BATCH = 2500
+
+
+def gen_cases(ctx, n_docs):
     r = ctx.rng
     cases = []
-    for _ in range(int(ctx.n(2500, 150000) * scale)):
+    for _ in range(n_docs):
         k = r.random()
         kind = 'valid'
         bad = 0.0
@@ -392,13 +395,23 @@ def run(ctx, drv):
         'sets / generators / cyclic containers are outside PyVal and are not generated',
         'torrents created from a magnet link (the _infohash fallback of Torrent.infohash) are outside the model',
     ]
-    cases = _load_corpus(ctx) + gen_cases(ctx)
-    evaluate(ctx, drv, cases)
+    total = ctx.n(2500, 40000)
+    cases = _load_corpus(ctx)
+    while total > 0:
+        n = min(BATCH, total)
+        total -= n
+        evaluate(ctx, drv, cases + gen_cases(ctx, n))
+        cases = []
+        if ctx.violations:
+            break
     ctx.exhaustive = False
 
 
 def search(ctx, drv):
-    evaluate(ctx, drv, gen_cases(ctx, scale=2.0))
+    for _ in range(2):
+        evaluate(ctx, drv, gen_cases(ctx, ctx.n(2500, 5000)))
+        if ctx.violations:
+            break
 
 
 def replay(ctx, drv, rp):
